@@ -121,6 +121,8 @@ class Highlighter(object):
         source_io = io.BytesIO(encode(source))
         formatter = [PlainFormatter()]
 
+        read_lines = []
+
         def readline():
             source_line = decode(source_io.readline())
             try:
@@ -129,6 +131,8 @@ class Highlighter(object):
                 # The line contains something that is not valid markup
                 source_line = _strip_tags(source_line)
                 formatter[0] = PlainFormatter()
+
+            read_lines.append(source_line)
 
             return encode(source_line)
 
@@ -163,6 +167,11 @@ class Highlighter(object):
                 line += "<{}>{}</>".format(
                     self._theme[current_type], buffer.rstrip("\n")
                 )
+
+                # A line continuation is not a token: keep the backslash
+                rest_of_line = read_lines[current_line - 1][current_col:].rstrip()
+                if rest_of_line.strip() == "\\":
+                    line += rest_of_line
 
                 # New line
                 lines.append(line)
